@@ -134,59 +134,62 @@ Record st := mkst {
   spin : N;                      (* loop iterations executed with the input exhausted and Error set *)
   excess : N;                    (* announced counts / lengths beyond what the input delivered *)
   um : N;                        (* the largest single allocation unit so far (an element, a pair, a pointer target ...) *)
+  rsv : N;                       (* bytes reserved up front by count-driven make / grow (reporting only: [alloc] charges them slot by slot) *)
   corrupt : bool }.              (* a value that violates Go's own invariants was produced *)
 
 Definition set_rest (s : st) (r : bytes) (e : option ek) (d : N) : st :=
-  mkst r e (simple s) (rrefs s) (rclasses s) (alloc s) (steps s + d) (spin s) (excess s) (um s) (corrupt s).
+  mkst r e (simple s) (rrefs s) (rclasses s) (alloc s) (steps s + d) (spin s) (excess s) (um s) (rsv s) (corrupt s).
 Definition set_error (s : st) (k : ek) : st :=              (* if dec.Error == nil { dec.Error = k } *)
   mkst (rest s) (match err s with None => Some k | e => e end) (simple s) (rrefs s) (rclasses s)
-       (alloc s) (steps s) (spin s) (excess s) (um s) (corrupt s).
+       (alloc s) (steps s) (spin s) (excess s) (um s) (rsv s) (corrupt s).
 Definition force_error (s : st) (k : ek) : st :=            (* dec.Error = k *)
-  mkst (rest s) (Some k) (simple s) (rrefs s) (rclasses s) (alloc s) (steps s) (spin s) (excess s) (um s) (corrupt s).
+  mkst (rest s) (Some k) (simple s) (rrefs s) (rclasses s) (alloc s) (steps s) (spin s) (excess s) (um s) (rsv s) (corrupt s).
 Definition add_ref (s : st) (r : rent) : st :=              (* dec.AddReference(o) *)
   if simple s then s else
-  mkst (rest s) (err s) (simple s) (r :: rrefs s) (rclasses s) (alloc s) (steps s) (spin s) (excess s) (um s) (corrupt s).
+  mkst (rest s) (err s) (simple s) (r :: rrefs s) (rclasses s) (alloc s) (steps s) (spin s) (excess s) (um s) (rsv s) (corrupt s).
 Definition force_ref (s : st) (r : rent) : st :=            (* dec.refer.Add(o) without the IsSimple test: never used by /repo *)
-  mkst (rest s) (err s) (simple s) (r :: rrefs s) (rclasses s) (alloc s) (steps s) (spin s) (excess s) (um s) (corrupt s).
+  mkst (rest s) (err s) (simple s) (r :: rrefs s) (rclasses s) (alloc s) (steps s) (spin s) (excess s) (um s) (rsv s) (corrupt s).
 Definition add_class (s : st) (c : cinfo) : st :=
-  mkst (rest s) (err s) (simple s) (rrefs s) (c :: rclasses s) (alloc s) (steps s) (spin s) (excess s) (um s) (corrupt s).
+  mkst (rest s) (err s) (simple s) (rrefs s) (c :: rclasses s) (alloc s) (steps s) (spin s) (excess s) (um s) (rsv s) (corrupt s).
 (* an allocation of n bytes for one unit (pointer target, box, element slot): it is also a step *)
 Definition add_alloc (s : st) (n : N) : st :=
   mkst (rest s) (err s) (simple s) (rrefs s) (rclasses s) (alloc s + n) (steps s + 1) (spin s) (excess s)
-       (N.max (um s) n) (corrupt s).
+       (N.max (um s) n) (rsv s) (corrupt s).
 (* the slot a count-driven allocation reserved for the iteration that starts now (nothing for slot 0) *)
 Definition charge (s : st) (slot : N) : st := if (slot =? 0)%N then s else add_alloc s slot.
+Definition add_rsv (s : st) (n : N) : st :=
+  mkst (rest s) (err s) (simple s) (rrefs s) (rclasses s) (alloc s) (steps s) (spin s) (excess s) (um s) (rsv s + n) (corrupt s).
 Definition add_excess (s : st) (n : N) : st :=
-  mkst (rest s) (err s) (simple s) (rrefs s) (rclasses s) (alloc s) (steps s) (spin s) (excess s + n) (um s) (corrupt s).
+  mkst (rest s) (err s) (simple s) (rrefs s) (rclasses s) (alloc s) (steps s) (spin s) (excess s + n) (um s) (rsv s) (corrupt s).
 Definition add_steps (s : st) (n : N) : st :=
-  mkst (rest s) (err s) (simple s) (rrefs s) (rclasses s) (alloc s) (steps s + n) (spin s) (excess s) (um s) (corrupt s).
+  mkst (rest s) (err s) (simple s) (rrefs s) (rclasses s) (alloc s) (steps s + n) (spin s) (excess s) (um s) (rsv s) (corrupt s).
 Definition set_corrupt (s : st) : st :=
-  mkst (rest s) (err s) (simple s) (rrefs s) (rclasses s) (alloc s) (steps s) (spin s) (excess s) (um s) true.
+  mkst (rest s) (err s) (simple s) (rrefs s) (rclasses s) (alloc s) (steps s) (spin s) (excess s) (um s) (rsv s) true.
 Definition set_simple (s : st) (b : bool) : st :=           (* dec.Simple(b): also dec.Reset() *)
-  mkst (rest s) (err s) b [] [] (alloc s) (steps s) (spin s) (excess s) (um s) (corrupt s).
+  mkst (rest s) (err s) b [] [] (alloc s) (steps s) (spin s) (excess s) (um s) (rsv s) (corrupt s).
 Definition reset_refs (s : st) : st :=                      (* dec.Reset() *)
-  mkst (rest s) (err s) (simple s) [] [] (alloc s) (steps s) (spin s) (excess s) (um s) (corrupt s).
+  mkst (rest s) (err s) (simple s) [] [] (alloc s) (steps s) (spin s) (excess s) (um s) (rsv s) (corrupt s).
 (* n iterations of a loop in a state where nothing can change any more: each costs a step and
    [per] bytes *)
 Definition spin_by (s : st) (n : N) (per : N) : st :=
   mkst (rest s) (err s) (simple s) (rrefs s) (rclasses s) (alloc s + n * per) (steps s + n) (spin s + n)
-       (excess s + n) (N.max (um s) per) (corrupt s).
+       (excess s + n) (N.max (um s) per) (rsv s) (corrupt s).
 (* n iterations not run at all (repaired loops stop on error): their slots were allocated all the same *)
 Definition skip_by (s : st) (n : N) (slot : N) : st :=
   mkst (rest s) (err s) (simple s) (rrefs s) (rclasses s) (alloc s + n * slot) (steps s) (spin s)
-       (excess s + n) (N.max (um s) slot) (corrupt s).
+       (excess s + n) (N.max (um s) slot) (rsv s) (corrupt s).
 (* the input ended [ex] units short of an announced length: everything left is consumed, io.EOF is set,
    and [a] = unit * (what was announced) bytes were reserved *)
 Definition short_by (s : st) (e : option ek) (ex : N) (a : N) (unit : N) : st :=
   mkst [] e (simple s) (rrefs s) (rclasses s) (alloc s + a) (steps s + 1) (spin s) (excess s + ex)
-       (N.max (um s) unit) (corrupt s).
+       (N.max (um s) unit) (rsv s) (corrupt s).
 
 Definition has_err (s : st) : bool := match err s with Some _ => true | None => false end.
 (* input exhausted and the sticky error set: NextByte returns 0 and every decoder ends in decodeError,
    which does nothing once Error is set *)
 Definition stuck (s : st) : bool := match rest s with [] => has_err s | _ => false end.
 
-Definition init (bs : bytes) (smp : bool) : st := mkst bs None smp [] [] 0 0 0 0 0 false.
+Definition init (bs : bytes) (smp : bool) : st := mkst bs None smp [] [] 0 0 0 0 0 0 false.
 
 (* ------------------------------------------------------------------ results *)
 
@@ -530,7 +533,7 @@ Definition counted (m : msite) (per : N) (negpanics : bool) (n : Z) (s : st) : o
     | MMap | MListMap | MObjMap | MArray => ROk n s       (* makemap: overflow || mem > maxAlloc -> hint = 0; no allocation at all for the others *)
     | _ => RHaz (HAllocRange m) s (ROk 0%Z (set_error s KDecode))
     end
-  else ROk n s.       (* the slots are charged one by one as the loop runs, spins or is cut short *)
+  else ROk n (add_rsv s (Z.to_N n * per)).       (* [alloc] is charged slot by slot as the loop runs, spins or is cut short *)
 
 (* for i := 0; i < n; i++ { body }   -- k bounds the iterations that can still consume input;
    [slot]: bytes the count-driven allocation reserved per iteration (charged as the iterations go by),
@@ -559,7 +562,11 @@ Definition over_names (lf : nat) (body : bytes -> st -> out unit) (slot : N) (c 
 
 (* what a decode into [sh] allocates when the input is exhausted (tag 0): pointer targets *)
 Fixpoint stuck_alloc (sh : shape) : N :=
-  match sh with SPtr e => size e + stuck_alloc e | _ => 0 end.
+  match sh with
+  | SIface => 0
+  | SPtr e => size e + stuck_alloc e
+  | _ => 16          (* decodeError's  var skipped interface{}  *)
+  end.
 
 Definition str_of (v : aval) : bytes := match v with AStr t => t | _ => [] end.
 
@@ -627,10 +634,10 @@ Definition read_object (s : st) : out aval :=
     bnd (over_names lf (decode_field (struct_fields t)) 0 c s2) (fun _ s3 => ROk (AOther true) (skip1 s3))
   end).
 
-(* dec.decodeError(t, tag) *)
+(* dec.decodeError(t, tag): the value is decoded as interface{} and dropped; the first error is kept
+   (/repo e28188f: also when an error is already set, so that the value is consumed) *)
 Definition decode_error (tag : byte) (s : st) : out aval :=
-  if has_err s then ROk ANil s
-  else bnd (rt SIface tag s) (fun _ s1 => ROk ANil (set_error s1 KCast)).
+  bnd (rt SIface tag s) (fun _ s1 => ROk ANil (set_error s1 KCast)).
 
 Definition tag_is (t : byte) (c : byte) : bool := Byte.eqb t c.
 Definition is_dig (t : byte) : bool := match digit t with Some _ => true | None => false end.
